@@ -24,9 +24,8 @@ Oracles (DESIGN section 4, C07):
 from __future__ import annotations
 
 import functools
-import itertools
 
-from pyoda_time import AnnualDate, CalendarSystem, Instant, LocalDate, LocalDateTime, LocalTime  # noqa: F401
+from pyoda_time import AnnualDate, CalendarSystem, LocalDate
 from pyoda_time._compatibility._culture_info import CultureInfo
 from pyoda_time._compatibility._culture_types import CultureTypes
 from pyoda_time.text import (AnnualDatePattern, DurationPattern, InstantPattern, InvalidPatternError, LocalDatePattern,
